@@ -28,6 +28,8 @@ structure CInst where
   lastCreate : Nat := 0                -- its latest Create call
   trigs : List Nat := []               -- the two latest moments at which something could have started a round (see the monitors)
   everCreated : Bool := false
+  jitterSuspect : Option (Nat × String) := none   -- a Create that looks like a round without jitter; judged when the clock moves on
+                                                  -- (the notification that caused it may be logged after it, at the same instant)
   deriving Repr, Inhabited
 
 structure State where
@@ -104,6 +106,9 @@ def step (s : State) (te : TEv) : R State :=
     | some p => do
     let t := te.t
     let s ← advanceAll p s t
+    match s.insts.find? (fun x => match x.jitterSuspect with | some (d, _) => decide (d < t) | none => false) with
+    | some x => reject ((x.jitterSuspect.map (·.2)).getD "")
+    | none =>
     match s.insts.find? (fun x => match x.startDue with | some d => decide (d < t) && x.cfg.key == s.key | none => false) with
     | some x => reject s!"instance {x.cfg.id} was started but by {repr x.startDue} (now {t}) it neither leads nor follows: its first acquisition attempt left it a candidate without a watch loop"
     | none =>
@@ -115,7 +120,11 @@ def step (s : State) (te : TEv) : R State :=
         match s.get i, r with
         -- (the first attempt is a Create, for a takeover-enabled instance possibly followed by a Get and an Update; whatever
         --  its outcome the instance then leads or follows - a candidate that does neither has no watch loop and never checks)
-        | some x, .ok => pure (s.set { x with running := true, flag := false, vac := none, chkOp := none, crtOps := [], startDue := some (t + 4 * p + 2000000) })
+        -- (an attempt of the run that has just ended may still be in flight - a restart by way of the context - and the new
+        --  run's attempt waits for it: up to three more operations)
+        | some x, .ok =>
+          let inFlight := s.ops.any fun o => o.2.1 == i
+          pure (s.set { x with running := true, flag := false, vac := none, chkOp := none, crtOps := [], startDue := some (t + (if inFlight then 7 else 4) * p + 2000000) })
         | _, _ => pure s
       else pure s
     | .api _ i .stop | .api _ i (.stopctx _ _ _ _) | .cancelCtx i =>
@@ -149,8 +158,8 @@ def step (s : State) (te : TEv) : R State :=
            | some r, t1 :: t0 :: _ => r == t1 && decide (t < r + Gen.jitterMin) && decide (t0 + Gen.jitterMax + p < t)
            | _, _ => false) &&
           (!x.everCreated || decide (x.lastCreate + roundSpan < t))
-        if noJitter then reject s!"instance {i}: Create at {t}, {repr (x.lastMiss.map fun r => t - r)} ns after the periodic check that found the key vacant: the round did not wait its jitter (at least {Gen.jitterMin} ns)"
-        else pure (s.set { (act p x .createCall) with crtOps := (op, t) :: x.crtOps, lastCreate := t, everCreated := true, lastMiss := none })
+        let x := if noJitter then { x with jitterSuspect := some (t, s!"instance {i}: Create at {t}, {repr (x.lastMiss.map fun r => t - r)} ns after the periodic check that found the key vacant: the round did not wait its jitter (at least {Gen.jitterMin} ns)") } else x
+        pure (s.set { (act p x .createCall) with crtOps := (op, t) :: x.crtOps, lastCreate := t, everCreated := true, lastMiss := none })
       | _, _ => pure s
     | .site op fn =>
       if fn ≠ "checkKeyAndReelect" then pure s else
@@ -204,7 +213,10 @@ def step (s : State) (te : TEv) : R State :=
         | none => pure s
     | .wev _ i _ _ =>
       match s.get i with
-      | some x => pure (s.set { x with trigs := (t :: x.trigs).take 2 })
+      | some x =>
+        -- (a notification taken from the channel at the very instant of that Create: its handler's own attempt)
+        let js := match x.jitterSuspect with | some (d, m) => if d = t then none else some (d, m) | none => none
+        pure (s.set { x with trigs := (t :: x.trigs).take 2, jitterSuspect := js })
       | none => pure s
     | .expire key _ => if key = s.key then pure (broadcast p { s with keyVacant := true } .vacate) else pure s
     | .extDelete key _ => if key = s.key then pure (broadcast p { s with keyVacant := true } .vacate) else pure s
